@@ -56,9 +56,11 @@ func (c *gkrCircuit) Define(api frontend.API) error {
 	if err != nil {
 		return err
 	}
-	y, err := g.Import(c.Y)
-	if err != nil {
-		return err
+	var y constraint.GkrVariable
+	if c.topo != 4 { // topology 4 imports its second input after the first gate
+		if y, err = g.Import(c.Y); err != nil {
+			return err
+		}
 	}
 	var outs []constraint.GkrVariable
 	switch c.topo {
@@ -74,6 +76,14 @@ func (c *gkrCircuit) Define(api frontend.API) error {
 	case 3:
 		z := g.Neg(g.Add(x, y))
 		outs = append(outs, g.Mul(z, g.Mul(x, x)))
+	case 4:
+		// an input imported after a gate exists, used by exactly one gate
+		z := g.Mul(x, x)
+		w, err := g.Import(c.Y)
+		if err != nil {
+			return err
+		}
+		outs = append(outs, g.Add(z, w))
 	}
 	sol, err := g.Solve(api)
 	if err != nil {
@@ -100,6 +110,8 @@ func gkrEval(topo int, q, x, y *big.Int) []*big.Int {
 		z := mul(x, y)
 		w := mul(z, x)
 		return []*big.Int{m(new(big.Int).Sub(w, y))}
+	case 4:
+		return []*big.Int{m(new(big.Int).Add(mul(x, x), y))}
 	default:
 		z := m(new(big.Int).Neg(new(big.Int).Add(x, y)))
 		return []*big.Int{mul(z, mul(x, x))}
@@ -298,7 +310,7 @@ func gkrSeriesCase(name string, inst int, deps [][2]int) *gcase {
 var c19Cases = []*gcase{
 	gkrSeriesCase("swap", 2, [][2]int{{0, 1}}), gkrSeriesCase("chain3of4", 4, [][2]int{{0, 2}, {2, 1}}), gkrSeriesCase("chain4", 4, [][2]int{{1, 3}, {3, 0}, {0, 2}}), gkrSeriesCase("identity-order", 4, [][2]int{{1, 0}, {2, 1}}),
 	gkrPoseidonCase(2), gkrPoseidonCase(3),
-	gkrCase(0, 2), gkrCase(0, 4), gkrCase(1, 2), gkrCase(1, 8), gkrCase(2, 4), gkrCase(2, 16), gkrCase(3, 2), gkrCase(3, 4),
+	gkrCase(4, 2), gkrCase(4, 4), gkrCase(4, 8), gkrCase(0, 2), gkrCase(0, 4), gkrCase(1, 2), gkrCase(1, 8), gkrCase(2, 4), gkrCase(2, 16), gkrCase(3, 2), gkrCase(3, 4),
 }
 
 func init() {
